@@ -24,6 +24,9 @@ fn generate_char_fn_ranges(f: fn(char) -> bool) -> Vec<(u32, u32)> {
     let mut ranges: Vec<(u32, u32)> = vec![];
     let mut current_range_start: Option<u32> = None;
 
+    // The previous scalar value. Not always `i - 1`: surrogates are skipped.
+    let mut prev: u32 = 0;
+
     for i in 0..=u32::from(char::MAX) {
         let c = match char::try_from(i) {
             Err(_) => continue,
@@ -35,8 +38,15 @@ fn generate_char_fn_ranges(f: fn(char) -> bool) -> Vec<(u32, u32)> {
                 current_range_start = Some(i);
             }
         } else if let Some(current_range_start) = current_range_start.take() {
-            ranges.push((current_range_start, i - 1));
+            ranges.push((current_range_start, prev));
         }
+
+        prev = i;
+    }
+
+    // A range that reaches `char::MAX` is still open here
+    if let Some(current_range_start) = current_range_start {
+        ranges.push((current_range_start, prev));
     }
 
     ranges
